@@ -1,10 +1,11 @@
 """C54 — sticky cookies are only sent to hosts and paths they belong to
 (mitmproxy/addons/stickycookie.py: ckey, domain_match, path_match, StickyCookie.response/request;
 mitmproxy/net/http/cookies.py: Set-Cookie parsing, is_expired, format_cookie_header)."""
-import ipaddress, itertools
+import email.utils, ipaddress, itertools, re
 from common.check import PropertyCheck, hx, unhx
 from mitmproxy import http
 from mitmproxy.addons import stickycookie
+from mitmproxy.net.http import cookies as mcookies
 from mitmproxy.test import taddons, tflow, tutils
 
 HOSTS = ["example.com", "sub.example.com", "a.sub.example.com", "xexample.com", "example.com.", "EXAMPLE.com",
@@ -17,12 +18,50 @@ CPATHS = [None, None, "/", "/foo", "/foo/", "/foo/bar", "foo", "", "/foobar"]
 RPATHS = ["/", "/foo", "/foo/", "/foobar", "/foo/bar", "/foo?x=1", "/foo?x=/foo/", "/fo", "/other", "/foo/bar/baz", "*", "",
           "/foo/bar?q", "/foobar/", "/foo%2Fbar", "/%66oo/bar", "/foo;p=/foo/", "/foo%3Fx", "//foo", "/foo/../other"]
 NAMES = ["a", "b", "sid"]
-EXPIRY = [  # (attribute pair or None, expired by construction)
-    (None, 0), (None, 0), (["Max-Age", "3600"], 0), (["Expires", "Fri, 01 Jan 2100 00:00:00 GMT"], 0),
-    (["Max-Age", "0"], 1), (["max-age", "-5"], 1), (["Expires", "Thu, 01-Jan-1970 00:00:00 GMT"], 1),
-    (["expires", "Wed, 13-Jan-2021 22:23:01 GMT"], 1),
+NOW = 1_800_000_000     # the frozen clock of every run (2027-01-15): between the past and the future dates below
+PAST, PAST2, FUTURE = "Thu, 01-Jan-1970 00:00:00 GMT", "Wed, 13-Jan-2021 22:23:01 GMT", "Fri, 01 Jan 2100 00:00:00 GMT"
+EXPIRY = [  # lists of attribute pairs (value None = attribute sent without "=value")
+    [], [], [], [["Max-Age", "3600"]], [["Expires", FUTURE]],
+    [["Max-Age", "0"]], [["max-age", "-5"]], [["Expires", PAST]], [["expires", PAST2]],
+    [["Expires", FUTURE], ["Max-Age", "0"]], [["Max-Age", "0"], ["Expires", FUTURE]], [["Expires", "garbage"], ["Max-Age", "0"]],
+    [["Expires", PAST], ["Max-Age", "3600"]], [["Max-Age", "abc"], ["Expires", PAST]], [["Max-Age", "abc"]],
+    [["Max-Age", None]], [["Max-Age", None], ["Expires", PAST]], [["Expires", None]], [["Expires", None], ["Max-Age", "0"]],
+    [["Max-Age", ""]], [["Max-Age", "1_0"]], [["Max-Age", "+0"]], [["Max-Age", "3600"], ["Max-Age", "0"]],
+    [["Expires", PAST], ["Expires", FUTURE]], [["Expires", "garbage"]],
 ]
-EXTRA = [["Secure", "1"], ["SameSite", "Lax"], ["HttpOnly", "x"]]
+EXTRA = [["Secure", None], ["SameSite", "Lax"], ["HttpOnly", None], ["Domain", None], ["Path", None]]
+PLAIN_INT = re.compile(r"-?[0-9]+\Z")
+
+
+def date_ts(attrs):
+    """email.utils' verdict on the last Expires value (the model's library parameter)"""
+    v = last_attr(attrs, "expires")
+    e = email.utils.parsedate_tz(v) if v else None
+    return email.utils.mktime_tz(e) if e else None
+
+
+def rfc_expired(attrs):
+    """RFC 6265 §5.2.1/§5.2.2/§4.1.2.2: Max-Age (a plain integer) has precedence over Expires; True / False, or None
+    where the RFC grammar and Python's int() disagree about the Max-Age value (the oracle then abstains)"""
+    ma = [v for k, v in attrs if k.lower() == "max-age"]
+    if ma:
+        v = ma[-1]
+        if v is not None and PLAIN_INT.match(v):
+            return int(v) <= 0
+        if v is not None:
+            try:
+                int(v); return None          # "+0", "1_0": int() takes it, the RFC grammar does not
+            except ValueError:
+                pass
+    if any(k.lower() == "expires" for k, _ in attrs):
+        ts = date_ts(attrs)
+        if ts is not None: return ts <= NOW
+    return False
+
+
+class FrozenTime:
+    @staticmethod
+    def time(): return float(NOW)
 
 
 def is_ip(h):
@@ -76,8 +115,8 @@ class Check(PropertyCheck):
             "address, SNI and scheme are absent, equal to the destination or name a different related/unrelated host and "
             "port (the oracle and the model always take the destination request.host / request.port), or a single (host, domain) / (request path, cookie path) pair from the exhaustive universe; "
             "distinct = distinct case; non-trivial = some request got a cookie attached, or a pair case.")
-    budget = {"quick": 6000, "thorough": 120000}
-    time_budget = {"quick": 20, "thorough": 420}
+    budget = {"quick": 4000, "thorough": 120000}
+    time_budget = {"quick": 12, "thorough": 400}
     fingerprints = ["mitmproxy.addons.stickycookie:ckey", "mitmproxy.addons.stickycookie:domain_match",
                     "mitmproxy.addons.stickycookie:path_match", "mitmproxy.addons.stickycookie:StickyCookie.response",
                     "mitmproxy.addons.stickycookie:StickyCookie.request", "mitmproxy.net.http.cookies:is_expired",
@@ -99,12 +138,11 @@ class Check(PropertyCheck):
         if p is not None:
             attrs.append([rng.pick(["Path", "path"]), p])
             if rng.chance(0.05): attrs.insert(0, ["Path", "/other"])
-        e, exp = rng.pick(EXPIRY)
-        if e is not None: attrs.append(list(e))
-        if rng.chance(0.2): attrs.append(list(rng.pick(EXTRA)))
+        attrs += [list(a) for a in rng.pick(EXPIRY)]
+        if rng.chance(0.25): attrs.append(list(rng.pick(EXTRA)))
         if rng.chance(0.3): rng.shuffle(attrs)
         ctr[0] += 1
-        return {"name": rng.pick(NAMES), "value": f"v{ctr[0]}", "attrs": attrs, "exp": exp}
+        return {"name": rng.pick(NAMES), "value": f"v{ctr[0]}", "attrs": attrs}
 
     def _related(self, rng, evs):
         """a request/response aimed at something already set"""
@@ -169,12 +207,10 @@ class Check(PropertyCheck):
                 if rng.chance(0.25):   # re-set / expire a cookie that exists: same name + attrs, new value / expired
                     old = rng.pick([c for e in evs if e["t"] == "resp" for c in e["cookies"]])
                     ctr[0] += 1
-                    c = {"name": old["name"], "value": f"v{ctr[0]}", "exp": old["exp"],
+                    c = {"name": old["name"], "value": f"v{ctr[0]}",
                          "attrs": [a for a in old["attrs"] if a[0].lower() not in ("max-age", "expires")]}
                     if rng.chance(0.6):
-                        c["attrs"].append(["Max-Age", "0"]); c["exp"] = 1
-                    else:
-                        c["exp"] = 0
+                        c["attrs"] += [list(a) for a in rng.pick([e for e in EXPIRY if rfc_expired(e)])]
                     src = rng.pick([e for e in evs if e["t"] == "resp" and old in e["cookies"]])
                     evs.append({"t": "resp", "host": src["host"], "port": src["port"], "cookies": [c]})
             else:
@@ -191,6 +227,9 @@ class Check(PropertyCheck):
         for a in HOSTS + ["", ".example.com", "EXAMPLE.COM.", ".3.4", "a:b.example.com"]:
             for b in doms + ["x.example.com.evil.org", "EXAMPLE.com"]:
                 yield {"dm": [a, b]}
+        for v in ["0", "-5", " 7 ", "+3", "1_0", "1.5", "", "abc", "0x10", "--1", "1__0", "_1", "1_", "007", "-0", "+", "-", "1 0",
+                  "\t12\n", "9" * 25, "1_2_3", "+-1", "1e3", "\x1f5", "5\x0b"]:
+            yield {"int": v}
         for r in RPATHS + ["/foo/?", "?", "/foo?"]:
             for c in [p for p in CPATHS if p is not None] + ["/foo?x=1", "/fo", "//"]:
                 yield {"pm": [r, c]}
@@ -202,7 +241,7 @@ class Check(PropertyCheck):
                     attrs = ([["Domain", dom]] if dom is not None else []) + ([["Path", cp]] if cp is not None else [])
                     k += 1
                     if tier == "quick" and k % 3: continue
-                    evs = [{"t": "resp", "host": host, "port": 80, "cookies": [{"name": "a", "value": "v1", "attrs": attrs, "exp": 0}]}]
+                    evs = [{"t": "resp", "host": host, "port": 80, "cookies": [{"name": "a", "value": "v1", "attrs": attrs}]}]
                     for h2 in HOSTS[:9]:
                         evs.append({"t": "req", "m": "GET", "host": h2, "port": 80, "path": rng.pick(RPATHS)})
                     evs.append({"t": "req", "m": "GET", "host": host, "port": 8080, "path": "/foo"})
@@ -218,19 +257,21 @@ class Check(PropertyCheck):
                     k += 1
                     if tier == "quick" and k % 2: continue
                     yield {"evs": [   # learned honestly, then a request to `other` claiming to be the owner
-                        {"t": "resp", "host": owner, "port": 80, "cookies": [{"name": "a", "value": "v1", "attrs": attrs, "exp": 0}], field: claim(owner)},
+                        {"t": "resp", "host": owner, "port": 80, "cookies": [{"name": "a", "value": "v1", "attrs": attrs}], field: claim(owner)},
                         {"t": "req", "m": "GET", "host": other, "port": 80, "path": "/", field: claim(owner)},
                         {"t": "req", "m": "GET", "host": owner, "port": 8080, "path": "/", field: claim(owner, 80) if field != "hh" else owner + ":80"},
                         {"t": "req", "m": "GET", "host": owner, "port": 80, "path": "/", field: claim(other)}]}
                     yield {"evs": [   # a response from `other` whose request claimed to be (a subdomain of) the owner
-                        {"t": "resp", "host": other, "port": 80, "cookies": [{"name": "a", "value": "v1", "attrs": [["Domain", "." + owner]], "exp": 0}], field: claim("www." + owner)},
-                        {"t": "resp", "host": other, "port": 80, "cookies": [{"name": "b", "value": "v2", "attrs": [], "exp": 0}], field: claim(owner)},
+                        {"t": "resp", "host": other, "port": 80, "cookies": [{"name": "a", "value": "v1", "attrs": [["Domain", "." + owner]]}], field: claim("www." + owner)},
+                        {"t": "resp", "host": other, "port": 80, "cookies": [{"name": "b", "value": "v2", "attrs": []}], field: claim(owner)},
                         {"t": "req", "m": "GET", "host": "www." + owner, "port": 80, "path": "/"},
                         {"t": "req", "m": "GET", "host": owner, "port": 80, "path": "/"}]}
         while True:
             if rng.chance(0.04):
                 al = "ab.E:1/"
                 yield {"dm": ["".join(rng.pick(al) for _ in range(rng.randint(0, 8))), "".join(rng.pick(al) for _ in range(rng.randint(0, 5)))]}
+            elif rng.chance(0.02):
+                yield {"int": "".join(rng.pick("01_+- 9a") for _ in range(rng.randint(0, 6)))}
             elif rng.chance(0.04):
                 al = "/ab?"
                 yield {"pm": ["".join(rng.pick(al) for _ in range(rng.randint(0, 8))), "".join(rng.pick(al) for _ in range(rng.randint(0, 5)))]}
@@ -243,8 +284,21 @@ class Check(PropertyCheck):
             return {"dm": bool(stickycookie.domain_match(*case["dm"]))}
         if "pm" in case:
             return {"pm": bool(stickycookie.path_match(*case["pm"]))}
+        if "int" in case:
+            try:
+                return {"int": str(int(case["int"]))}
+            except ValueError:
+                return {"int": "err"}
         sc = stickycookie.StickyCookie()
         out = []
+        saved_time = mcookies.time
+        mcookies.time = FrozenTime
+        try:
+            return self._drive(sc, case, out)
+        finally:
+            mcookies.time = saved_time
+
+    def _drive(self, sc, case, out):
         with taddons.context(sc) as tctx:
             tctx.configure(sc, stickycookie="~m GET")
             for ev in case["evs"]:
@@ -252,15 +306,27 @@ class Check(PropertyCheck):
                     f = self._flow(ev, True)
                     f.response.headers.pop("set-cookie", None)
                     for c in ev["cookies"]:
-                        f.response.headers.add("Set-Cookie", c["name"] + "=" + c["value"] + "".join(f"; {k}={v}" for k, v in c["attrs"]))
-                    sc.response(f)
-                    out.append({"njar": len(sc.jar)})
+                        f.response.headers.add("Set-Cookie", c["name"] + "=" + c["value"] +
+                                               "".join(f"; {k}" if v is None else f"; {k}={v}" for k, v in c["attrs"]))
+                    # what the real parser + is_expired say about each cookie (the model predicts these flags)
+                    flags = [int(bool(mcookies.is_expired(attrs))) for _, (_, attrs) in f.response.cookies.items(multi=True)]
+                    r = {}
+                    try:
+                        sc.response(f)
+                    except Exception as e:      # the hook must not raise; what it leaves behind is judged by the oracle and the tie
+                        r["raised"] = type(e).__name__
+                    out.append({"njar": len(sc.jar), "expired": flags, **r})
                 else:
                     f = self._flow(ev, False)
                     f.request.headers.pop("cookie", None)
-                    sc.request(f)
-                    out.append({"cookie": f.request.headers.get("cookie")})
-            jar = [[k[0], k[1], k[2], [[n, v] for n, v in d.items()]] for k, d in sc.jar.items()]
+                    r = {}
+                    try:
+                        sc.request(f)
+                    except Exception as e:
+                        r["raised"] = type(e).__name__
+                    out.append({"cookie": f.request.headers.get("cookie"), **r})
+            sv = lambda x: x if isinstance(x, str) else f"<{x!r}>"      # a non-string key part (None) is shown, never hidden
+            jar = [[sv(k[0]), k[1], sv(k[2]), [[n, sv(v)] for n, v in d.items()]] for k, d in sc.jar.items()]
         return {"evs": out, "jar": jar}
 
     # ---- the property over what the addon did -------------------------------------------------
@@ -293,7 +359,7 @@ class Check(PropertyCheck):
         if not dm6265(ev["host"], dom):
             fails.append(f"{where}: cookie {name}={value} with domain {dom!r} was accepted from foreign host {ev['host']!r}")
         # "an expired cookie is removed from the jar"
-        if c["exp"]:
+        if rfc_expired(c["attrs"]) is True:
             fails.append(f"{where}: cookie {name}={value} was already expired when it was set")
         for i2 in range(i, upto):
             ev2 = case["evs"][i2]
@@ -301,7 +367,7 @@ class Check(PropertyCheck):
             for j2, c2 in enumerate(ev2["cookies"]):
                 # (demanded only when the expiring response comes from the host whose cookie was accepted before: the
                 #  statement does not say which other hosts may expire it)
-                if (i2, j2) > (i, j) and c2["exp"] and c2["name"] == name and self._key(ev2, c2) == (dom, port, path) \
+                if (i2, j2) > (i, j) and rfc_expired(c2["attrs"]) is True and c2["name"] == name and self._key(ev2, c2) == (dom, port, path) \
                         and ev2["host"].lower() == ev["host"].lower():
                     fails.append(f"{where}: cookie {name}={value} was expired by event {i2} and is still there")
         return fails, (dom, port, path)
@@ -313,6 +379,7 @@ class Check(PropertyCheck):
             return [f"domain_match{tuple(case['dm'])} is true, RFC 6265 §5.1.3 says no"] if obs["dm"] and not dm6265(*case["dm"]) else []
         if "pm" in case:
             return [f"path_match{tuple(case['pm'])} is true, RFC 6265 §5.1.4 says no"] if obs["pm"] and not pm6265(*case["pm"]) else []
+        if "int" in case: return []
         sets = self._sets(case)
         fails = []
         for i, (ev, r) in enumerate(zip(case["evs"], obs["evs"])):
@@ -345,23 +412,25 @@ class Check(PropertyCheck):
     # ---- the model ---------------------------------------------------------------------------
     @staticmethod
     def _cookie_field(c):
-        attrs = ";".join(hs(k) + "=" + hs(v) for k, v in c["attrs"]) or "_"
-        return f"{hs(c['name'])}:{hs(c['value'])}:{c['exp']}:{attrs}"
+        attrs = ";".join(hs(k) if v is None else hs(k) + "=" + hs(v) for k, v in c["attrs"]) or "_"
+        ts = date_ts(c["attrs"])
+        return f"{hs(c['name'])}:{hs(c['value'])}:{'n' if ts is None else ts}:{attrs}"
 
     def model_lines(self, case):
         if "dm" in case: return [f"dm {hs(case['dm'][0])} {hs(case['dm'][1])}"]
         if "pm" in case: return [f"pm {hs(case['pm'][0])} {hs(case['pm'][1])}"]
+        if "int" in case: return [f"int {hs(case['int'])}"]
         lines = ["reset"]
         for ev in case["evs"]:
             if ev["t"] == "resp":
-                lines.append(f"resp {hs(ev['host'])} {ev['port']} " + (",".join(self._cookie_field(c) for c in ev["cookies"]) or "_"))
+                lines.append(f"resp {NOW} {hs(ev['host'])} {ev['port']} " + (",".join(self._cookie_field(c) for c in ev["cookies"]) or "_"))
             else:
                 lines.append(f"req {1 if ev['m'] == 'GET' else 0} {hs(ev['host'])} {ev['port']} {hs(ev['path'])}")
         lines.append("dump")
         return lines
 
     def model_obs(self, case, replies):
-        if "dm" in case or "pm" in case: return replies[0]
+        if "dm" in case or "pm" in case or "int" in case: return replies[0]
         return {"evs": replies[1:-1], "jar": replies[-1]}
 
     def impl_view(self, case, obs):
@@ -369,9 +438,11 @@ class Check(PropertyCheck):
         # for the pair cases the model also evaluates the Lean RFC spec: compare it with the oracle's RFC spec
         if "dm" in case: return f"{int(obs['dm'])} {int(dm6265(*case['dm']))}"
         if "pm" in case: return f"{int(obs['pm'])} {int(pm6265(*case['pm']))}"
+        if "int" in case: return obs["int"]
         evs = []
         for r in obs["evs"]:
-            if "njar" in r: evs.append(f"ok {r['njar']}")
+            if "raised" in r: evs.append("raised " + r["raised"])
+            elif "njar" in r: evs.append(f"ok {r['njar']} " + (",".join(map(str, r["expired"])) or "_"))
             else: evs.append("none" if r["cookie"] is None else hs(r["cookie"]))
         jar = " ".join(f"{hs(d)}:{p}:{hs(pa)}=" + (";".join(f"{hs(n)}:{hs(v)}" for n, v in cs) or "_") for d, p, pa, cs in obs["jar"]) or "_"
         return {"evs": evs, "jar": jar}
@@ -380,6 +451,7 @@ class Check(PropertyCheck):
         if "__exc__" in obs: return None
         if "dm" in case: return ("dm",) + tuple(case["dm"])
         if "pm" in case: return ("pm",) + tuple(case["pm"])
+        if "int" in case: return ("int", case["int"])
         if not any(r.get("cookie") for r in obs["evs"]): return None
         return hash(str(case["evs"]))
 
@@ -387,6 +459,7 @@ class Check(PropertyCheck):
         if "__exc__" in obs: return ["impl-raised"]
         if "dm" in case: return [f"dm:{int(obs['dm'])}/rfc:{int(dm6265(*case['dm']))}"]
         if "pm" in case: return [f"pm:{int(obs['pm'])}/rfc:{int(pm6265(*case['pm']))}"]
+        if "int" in case: return ["int:" + ("err" if obs["int"] == "err" else "ok")]
         out = []
         sets = self._sets(case)
         stored = {v for _, _, _, cs in obs["jar"] for _, v in cs}
@@ -405,7 +478,10 @@ class Check(PropertyCheck):
                 for c in ev["cookies"]:
                     dom = self._key(ev, c)[0]
                     if not dm6265(ev["host"], dom): out.append("set:foreign-domain-rejected")
-                    elif c["exp"]: out.append("set:expired")
+                    elif rfc_expired(c["attrs"]) is not False: out.append("set:expired")
+                    if any(v is None for _, v in c["attrs"]): out.append("set:valueless-attribute")
+                    if last_attr(c["attrs"], "max-age") is not None and any(k.lower() == "expires" for k, _ in c["attrs"]):
+                        out.append("set:max-age+expires")
                     else: out.append("set:stored")
         return sorted(set(out))
 
@@ -430,7 +506,7 @@ class Check(PropertyCheck):
             for dom in DOMAINS[1:]:
                 for cp in CPATHS[1:]:
                     attrs = ([["Domain", dom]] if dom is not None else []) + ([["Path", cp]] if cp is not None else [])
-                    evs = [{"t": "resp", "host": host, "port": 80, "cookies": [{"name": "a", "value": "v1", "attrs": attrs, "exp": 0}]}]
+                    evs = [{"t": "resp", "host": host, "port": 80, "cookies": [{"name": "a", "value": "v1", "attrs": attrs}]}]
                     for h2 in HOSTS:
                         for rp in RPATHS:
                             evs.append({"t": "req", "m": "GET", "host": h2, "port": 80, "path": rp})
